@@ -81,7 +81,10 @@ class LRUCacheStore(Store):
         _logger.debug(f"Fetching key {key}")
         res = self._store.fetch_blob(key)
         _logger.debug(f"Fetching key {key} completed: {type(res)}")
-        self._cache.put(key, res)
+        if res is not None:
+            # An absent key also returns None: caching it would make has_blob answer True
+            # and hide a later store_blob.
+            self._cache.put(key, res)
         return res
 
     def store_blob(self, key: PyHash, blob: Any, codec: Optional[ProtocolRef]) -> None:
